@@ -52,6 +52,9 @@ CONSTANTS Mode,      \* "pv" | "bat": model-check and emit cases; "batreal": emi
           SetGrid,   \* battery: set-points a given distribution may contain
           RemGrid,   \* battery: remaining (excess) power of a given distribution
           LostGrid,  \* battery: request - sum(set-points) - remaining; {0} = conserving distributions only
+          BadKinds,  \* battery: ways a requested battery can be unusable: "nw" (status tracker does not list it
+                     \* as working), "nan" (its data has a NaN in a crucial metric)
+          MaxBad,    \* battery: at most this many unusable batteries per configuration
           Profiles,  \* batreal: number of component-data profiles (built by the harness)
           RealReqs,  \* batreal: requested powers
           Orders,    \* "index": replies arrive in call order; "any": every interleaving
@@ -63,7 +66,7 @@ Outcomes == {"ok", "oor", "err", "exc", "to"}
 \* exc: any other exception; to: no reply before api_power_request_timeout
 
 VARIABLES pc,      \* idle -> configured -> requested -> distributed -> waiting [-> cancelling] -> collected -> parsed -> sent
-          cs,      \* the request and its environment: kind, n, topo, bd, req, out, prof
+          cs,      \* the request and its environment: kind, n, topo, bd, req, out, prof, bad (battery -> "ok"|"nw"|"nan")
           alloc,   \* inverter -> set-point (PV: allocations; battery: distribution.distribution)
           rem,     \* remaining_power
           ord,     \* order in which the calls are issued (dict order)
@@ -90,7 +93,26 @@ Max3(a, b, c) == IF a >= b /\ a >= c THEN a ELSE IF b >= c THEN b ELSE c
 Invs == 1..cs.n
 NoRes == [type |-> "none", sp |-> 0, fp |-> 0, ex |-> 0, succ |-> {}, failed |-> {}]
 NoParsed == [fp |-> 0, failed |-> {}, succ |-> {}]
-NoCase == [kind |-> "none", n |-> 0, topo |-> <<>>, bd |-> <<>>, req |-> 0, out |-> <<>>, prof |-> 0]
+NoCase == [kind |-> "none", n |-> 0, topo |-> <<>>, bd |-> <<>>, req |-> 0, out |-> <<>>, prof |-> 0, bad |-> <<>>]
+MinOf(S) == CHOOSE x \in S : \A y \in S : x <= y
+MaxOf(S) == CHOOSE x \in S : \A y \in S : x >= y
+RECURSIVE SortedSeq(_)
+SortedSeq(S) == IF S = {} THEN <<>> ELSE LET m == MinOf(S) IN <<m>> \o SortedSeq(S \ {m})
+
+----------------------------------------------------------------------------
+(* BatteryManager._get_components_data: which inverters take part in the distribution.        *)
+(* The request names every battery of the topology; a battery set (bat_bats_map of a WORKING  *)
+(* battery) is used unless one of its batteries has NaN data; its inverters are addressed.     *)
+(* (In the topologies used here every inverter of a set is adjacent to each of its batteries.) *)
+Bats(t) == UNION {t[i] : i \in DOMAIN t}
+BatBats(t, b) == UNION {t[i] : i \in {j \in DOMAIN t : b \in t[j]}}
+ActiveInvs(t, bad) ==
+    LET working == {b \in Bats(t) : bad[b] # "nw"}            \* get_working_components(request.component_ids)
+        sets == {BatBats(t, b) : b \in working}               \* battery_sets
+        good == {G \in sets : \A b \in G : bad[b] # "nan"}    \* _get_battery_inverter_data(...) is not None
+    IN {i \in DOMAIN t : \E G \in good : t[i] \cap G # {}}
+BadAssignments(t) ==
+    {f \in [Bats(t) -> {"ok"} \cup BadKinds] : Cardinality({b \in Bats(t) : f[b] # "ok"}) <= MaxBad}
 
 ----------------------------------------------------------------------------
 (* PVManager.distribute_power: the water-filling *)
@@ -119,11 +141,9 @@ PVWaterFill(bd, rq) == PVFill(PVOrder(bd), 0, rq, bd, <<>>, TRUE)
 ----------------------------------------------------------------------------
 (* actions *)
 
-PVCase(n, b, r, o) == [kind |-> "pv", n |-> n, topo |-> [i \in 1..n |-> {i}], bd |-> b, req |-> r, out |-> o, prof |-> 0]
-BatCase(t, r, o, p) == [kind |-> "bat", n |-> Len(t), topo |-> t, bd |-> <<>>, req |-> r, out |-> o, prof |-> p]
+PVCase(n, b, r, o) == [kind |-> "pv", n |-> n, topo |-> [i \in 1..n |-> {i}], bd |-> b, req |-> r, out |-> o, prof |-> 0, bad |-> <<>>]
+BatCase(t, r, o, p, f) == [kind |-> "bat", n |-> Len(t), topo |-> t, bd |-> <<>>, req |-> r, out |-> o, prof |-> p, bad |-> f]
 \* requests for which some given distribution of the grid can exist
-MinOf(S) == CHOOSE x \in S : \A y \in S : x <= y
-MaxOf(S) == CHOOSE x \in S : \A y \in S : x >= y
 BatReqs == LET lo == MinOf({0, MaxN * MinOf(SetGrid)}) + MinOf(RemGrid) + MinOf(LostGrid)
                hi == MaxOf({0, MaxN * MaxOf(SetGrid)}) + MaxOf(RemGrid) + MaxOf(LostGrid)
            IN lo..hi
@@ -154,10 +174,11 @@ PVDistribute ==
     /\ pc' = "distributed"
     /\ UNCHANGED <<cs, calls, task, target, parsed, res, h>>
 
-\* BatteryManager._get_distribution returned DistributionResult(distribution = s, remaining = r)
+\* BatteryManager._get_distribution returned DistributionResult(distribution = s, remaining = r);
+\* s is a function over the inverters that take part (ActiveInvs)
 GivenDistribution(s, r) ==
     /\ pc = "requested" /\ cs.kind = "bat"
-    /\ alloc' = s /\ rem' = r /\ ord' = [i \in 1..cs.n |-> i]
+    /\ alloc' = s /\ rem' = r /\ ord' = SortedSeq(DOMAIN s)
     /\ pc' = "distributed"
     /\ UNCHANGED <<cs, calls, task, target, parsed, res>>
 
@@ -166,12 +187,12 @@ SetPowerGuard(c, p) == pc = "distributed" /\ Len(calls) < Len(ord) /\ c = ord[Le
 SetPowerUpd(c, p) ==
     /\ calls' = Append(calls, [c |-> c, p |-> p])
     /\ task' = [task EXCEPT ![c] = "pending"]
-    /\ pc' = IF pc = "distributed" /\ Len(calls') >= cs.n THEN "waiting" ELSE pc
+    /\ pc' = IF pc = "distributed" /\ Len(calls') >= Len(ord) THEN "waiting" ELSE pc
 
 \* the client answers (returns or raises)
 ReplyGuard(c, o) ==
     /\ pc \in {"distributed", "waiting"} /\ c \in Invs /\ task[c] = "pending" /\ o = cs.out[c] /\ o # "to"
-    /\ Orders = "index" => \A d \in Invs : (d < c /\ cs.out[d] # "to") => task[d] \notin {"none", "pending"}
+    /\ Orders = "index" => \A d \in DOMAIN alloc : (d < c /\ cs.out[d] # "to") => task[d] \notin {"none", "pending"}
 ReplyUpd(c, o) == task' = [task EXCEPT ![c] = o]
 
 \* asyncio.wait(..., timeout) returns with tasks pending: every call still pending never answers
@@ -239,9 +260,11 @@ ConfigureStep ==
                 /\ (PVSorted /\ n = MaxN) => \A i \in 1..(n - 1) : b[i] >= b[i + 1]
                 /\ Configure(PVCase(n, b, 0, <<>>))
        \/ /\ Mode = "bat"
-          /\ \E t \in Topos : Configure(BatCase(t, 0, <<>>, 0))
+          /\ \E t \in Topos : \E f \in BadAssignments(t) :
+                ActiveInvs(t, f) # {} /\ Configure(BatCase(t, 0, <<>>, 0, f))
        \/ /\ Mode = "batreal"
-          /\ \E t \in Topos, p \in 1..Profiles : Configure(BatCase(t, 0, <<>>, p))
+          /\ \E t \in Topos, p \in 1..Profiles : \E f \in BadAssignments(t) :
+                ActiveInvs(t, f) # {} /\ Configure(BatCase(t, 0, <<>>, p, f))
 RequestStep ==
     /\ pc = "configured"
     /\ \E r \in (IF Mode = "pv" THEN PVReqs ELSE IF Mode = "bat" THEN BatReqs ELSE RealReqs),
@@ -251,13 +274,14 @@ RequestStep ==
 PVDistributeStep == Mode = "pv" /\ PVDistribute
 BatDistributeStep ==
     /\ Mode = "bat"
-    /\ \E s \in [1..cs.n -> SetGrid], r \in RemGrid :
+    /\ \E s \in [ActiveInvs(cs.topo, cs.bad) -> SetGrid], r \in RemGrid :
          /\ (cs.req - SumSeq(s) - r) \in LostGrid
          /\ GivenDistribution(s, r)
          /\ h' = [kind |-> "bat", n |-> cs.n, topo |-> cs.topo, bd |-> <<>>, req |-> cs.req, out |-> cs.out,
-                  prof |-> 0, s |-> s, r |-> r]
+                  prof |-> 0, bad |-> cs.bad, act |-> DOMAIN s,
+                  s |-> [i \in 1..cs.n |-> IF i \in DOMAIN s THEN s[i] ELSE 0], r |-> r]
          /\ Emit(h')
-SetPowerStep == Mode # "batreal" /\ \E c \in Invs : SetPowerGuard(c, alloc[c]) /\ SetPowerUpd(c, alloc[c])
+SetPowerStep == Mode # "batreal" /\ \E c \in DOMAIN alloc : SetPowerGuard(c, alloc[c]) /\ SetPowerUpd(c, alloc[c])
                 /\ UNCHANGED <<cs, alloc, rem, ord, target, parsed, res, h>>
 ReplyStep == \E c \in Invs : ReplyGuard(c, cs.out[c]) /\ ReplyUpd(c, cs.out[c])
              /\ UNCHANGED <<pc, cs, alloc, rem, ord, calls, target, parsed, res, h>>
@@ -309,7 +333,11 @@ SucceededIsSucceededSetpoints ==
 \* design-level sanity of the model itself
 WaterFillExact == (cs.kind = "pv" /\ pc = "requested") => PVWaterFill(cs.bd, cs.req).exact
 WaterFillConserves == (cs.kind = "pv" /\ pc \notin {"idle", "configured", "requested"}) => SumSeq(alloc) + rem = cs.req
-EveryAllocationIsCalled == Sent => {calls[k].c : k \in DOMAIN calls} = DOMAIN alloc /\ Len(calls) = cs.n
+EveryAllocationIsCalled == Sent => {calls[k].c : k \in DOMAIN calls} = DOMAIN alloc /\ Len(calls) = Cardinality(DOMAIN alloc)
+\* a requested battery that takes no part in the distribution is reported neither as succeeded nor as failed
+UnaddressedNotReported ==
+    (Sent /\ cs.kind = "bat") =>
+        (res.succ \cup res.failed) \cap (Bats(cs.topo) \ UNION {cs.topo[i] : i \in ActiveInvs(cs.topo, cs.bad)}) = {}
 TypeOfResult == Sent => (res.type = "Success" <=> \A k \in DOMAIN CallsO : CallsO[k].o = "ok")
 \* the cause predicate is exact: the pre-8493bc4 formula breaks the identity precisely when it fires
 StaleFormulaIsDetected ==
